@@ -1,6 +1,7 @@
 """Per-property checks."""
 import json
 import os
+import re
 import shutil
 
 import engines
@@ -1606,7 +1607,8 @@ def c11(rep, tier, seed, wd, replay):
                 w[0] = f[1]
         hs.append({"cfg": cfg, "ops": ops, "accts": accts, "opts": {}, "want": want})
     # large stores: every record must come out with its own values (not those of a record further along)
-    for nk in ([130] if tier != "thorough" else [51, 101, 130, 300]):
+    # (1100 keys = 2200 records: beyond any page / batch size of a few hundred or a thousand records)
+    for nk in ([130, 1100] if tier != "thorough" else [51, 101, 130, 300, 1100, 2600]):
         raws_l, ks = imp.big_store_raws(nk, step=7)
         cfg = hist.config_lines(accts, perms, admins) [:-1] + raws_l + ["begin"]
         want = {}
@@ -2412,7 +2414,9 @@ def c19(rep, tier, seed, wd, replay):
                 unknown = "unknown_sender" in res
                 ok = unknown == (cn not in DAEMON_PEERS)
             elif meth.endswith("ListAccounts"):
-                ok = res == ("served:SUCCEEDED:16" if allowed else "served:SUCCEEDED:0") or (allowed and res.startswith("served:SUCCEEDED:1"))
+                # (a permitted client sees the 16 configured accounts plus whatever Generate calls have created by then)
+                m_ = re.match(r"served:SUCCEEDED:(\d+)$", res)
+                ok = bool(m_) and ((int(m_.group(1)) >= 16) if allowed else (int(m_.group(1)) == 0))
             elif "WalletManager" in meth or "AccountManager" in meth or "Signer" in meth:
                 ok = ("SUCCEEDED" in res) == allowed or (allowed and "FAILED" in res and "Generate" in meth)
             if not ok:
@@ -2660,6 +2664,13 @@ def c12(rep, tier, seed, wd, replay):
                 pubs[f[3]] = o.split()[1]
                 success = True
                 rep.dist("generation", "ok")
+                # success is only possible inside the bounds n/2 < t <= n, n >= 1 (the Lean predicate generateAccepts,
+                # = the translated guard of OnGenerate)
+                t_, n_ = int(f[4]), int(f[5])
+                if not (n_ != 0 and t_ <= n_ and not (t_ <= n_ // 2)):
+                    rep.violation("generated-outside-bounds", "a generation with threshold %d for %d participants reported success" % (t_, n_),
+                                  {"scenario": r_["tag"], "lines": r_["lines"][:i + 1], "impl": r_["impl"][:i + 1]})
+                    found = True
             elif f[0] == "gen":
                 rep.dist("generation", "refused")
             if f[0] == "relations" and f[1] in pubs:      # judged only for a name whose generation reported success
@@ -2817,6 +2828,14 @@ def c16(rep, tier, seed, wd, replay):
                             rep.violation("share-sent-to-non-participant", "a contribution (carrying the share computed for a listed participant) was sent to an instance that is not a participant",
                                           {"scenario": r_["tag"], "lines": r_["lines"][:i + 1], "impl": r_["impl"][:i + 1]})
                             found = True
+            if f[0] == "shareowners":
+                rep.dist("shareowners", o.split()[0])
+                if o.startswith("MISMATCH"):
+                    rep.violation("share-not-callers", "a contribution reply examined after later calls were handled no longer carries its own caller's share: " + o,
+                                  {"scenario": r_["tag"], "lines": r_["lines"][:i + 1], "impl": r_["impl"][:i + 1]})
+                    found = True
+                elif not o.startswith("ok="):
+                    rep.broken.append(("harness:shareowners", json.dumps({"scenario": r_["tag"], "result": o}), False))
             if f[0] == "shareowner":
                 rep.dist("shareowner", o)
                 if o != "share-for=%s" % f[2]:
